@@ -111,6 +111,10 @@ func Run(ctx context.Context, o Options) (*Result, error) {
 		args = append(args, "-Xmx"+o.Heap)
 	}
 	args = append(args, "-Xss256m")
+	// TLC makes an (empty) directory under java.io.tmpdir on every start: kept inside the run's scratch
+	tmp := filepath.Join(dir, "jtmp")
+	os.MkdirAll(tmp, 0o755)
+	args = append(args, "-Djava.io.tmpdir="+tmp)
 	if o.DFS {
 		args = append(args, "-Dtlc2.tool.queue.IStateQueue=StateDeque")
 	}
